@@ -271,6 +271,85 @@ def run(prog, ctx):
             else:
                 res.violate("C03.H", "C03.H|%s|%s" % (f.id, owner.rsplit("::", 1)[-1]),
                             "%s builds an %s from the gadget without copying the gadget's estimator state (HIP, KxQ, out-of-order)" % (f.id, owner.rsplit("::", 1)[-1]), f.id, site["span"])
+    # C03.H (ordering): an accumulator restored from a source (a setter of hip_accum fed from a parameter) must be the last word:
+    # no routine that *accumulates* HIP (register replay through the estimator's update) may run after it on any path
+    HE = "hll::estimator::HipEstimator"
+    acc_fns, set_fns = set(), set()
+    for g in prog.fns.values():
+        if g.promoted:
+            continue
+        for (ff, b, kind, place, rv, span, adt, fld) in sym.field_stores(prog, adt=HE, field="hip_accum", fns=[g]):
+            if kind != "assign" or rv is None:
+                continue
+            v = Sym(prog, g).rvalue(rv)
+            if sym.contains(v, lambda t: t[0] == "field" and t[2] == "hip_accum") and sym.contains(v, lambda t: C.is_bin(t, "Add")):
+                acc_fns.add(g.id)
+            elif v[0] == "param" or (v[0] in ("cast",) and v[1][0] == "param"):
+                set_fns.add(g.id)
+    _r = {}
+
+    def reaches_any(callee, targets):
+        if not callee or callee not in prog.fns:
+            return False
+        k = (callee, id(targets))
+        if k not in _r:
+            _r[k] = callee in targets or any(g.id in targets for g in C.reach_from(prog, [callee]))
+        return _r[k]
+    for f in ufns:
+        s = Sym(prog, f, ifconv=False)
+        setters = [b for b, site in f.calls() if reaches_any(site.get("callee"), set_fns) and not reaches_any(site.get("callee"), acc_fns)]
+        accs = [b for b, site in f.calls() if reaches_any(site.get("callee"), acc_fns)]
+        for sb in setters:
+            n_h += 1
+            res.obligations += 1
+            late = [ab for ab in accs if ab != sb and s._reaches(sb, ab)]
+            if late:
+                res.violate("C03.H", "C03.H|%s|restore-order" % f.id, "%s restores the HIP accumulator from the source and afterwards replays registers through the estimator (%s): the replay's increments are added on top of the restored value" % (
+                    f.id, (f.blocks[late[0]].term[1].get("callee") or "?")), f.id, f.blocks[sb].term[1].get("span"))
+            else:
+                res.discharged += 1
+    # C03.C (siblings): in a dispatch over the source's array type inside the union's merge routines, the arms agree on whether the
+    # gadget's estimator ends up marked out of order (a merge into an existing gadget always invalidates HIP)
+    for f in ufns:
+        s = Sym(prog, f, ifconv=False)
+        for b in f.blocks:
+            if b.cleanup or b.term[0] != "switch":
+                continue
+            cond = s.at(b.idx, "t").operand(b.term[1])
+            if cond[0] != "discr" or len(b.term[2]) < 2:
+                continue
+            # only dispatches over a `Mode` parameter (the source sketch's representation), and only its Array arms
+            src = cond[1]
+            while src[0] in ("variant",):
+                src = src[1]
+            if not (src[0] == "param" and "Mode" in f.local_ty(src[1])):
+                continue
+            mode_adt = next((a for k_, a in prog.adts.items() if k_.endswith("::Mode") and k_.startswith("hll::")), None)
+            array_vals = set()
+            if mode_adt:
+                for i_, v_ in enumerate(mode_adt["variants"]):
+                    if v_["name"].startswith("Array"):
+                        array_vals.add(mode_adt["discrs"][i_] if mode_adt.get("discrs") and i_ < len(mode_adt["discrs"]) else i_)
+            arms = {}
+            for v, tgt in b.term[2]:
+                if v not in array_vals:
+                    continue
+                # blocks owned by this arm
+                eff = False
+                for bb, site in f.calls():
+                    if f.dominates(tgt, bb) and s.edge_dominates(b.idx, tgt, bb) and effect(site.get("callee"), OOO):
+                        eff = True
+                has_call = any(f.dominates(tgt, bb) and s.edge_dominates(b.idx, tgt, bb) and (site.get("callee") or "").startswith("hll::") for bb, site in f.calls())
+                if has_call:
+                    arms[v] = eff
+            if len(arms) >= 2 and any(arms.values()):
+                n_c += 1
+                res.obligations += 1
+                if all(arms.values()):
+                    res.discharged += 1
+                else:
+                    res.violate("C03.C", "C03.C|%s|sibling-arms" % f.id, "%s: the arms of the dispatch over the source type disagree on marking the estimator out of order (arms %s do, arms %s do not)" % (
+                        f.id, sorted(k for k, v in arms.items() if v), sorted(k for k, v in arms.items() if not v)), f.id)
     res.rule("C03.H", n_h, 4, "estimator-state transfers")
 
     res.explanation = ("structural rules over the %d functions reachable from HllUnion::{update,to_sketch,reset,new}: gadget adoption guard, "
